@@ -21,6 +21,8 @@ def std_case(rnd, seed, *, kinds=("gauss", "bimodal", "expedge", "corr"), scenar
         cfg.pop("periodic", None)
         cfg["reflective"] = [0]
     case = dict(seed=seed, target=tgt, cfg=cfg, n_total=rnd.choice(list(n_totals)), scenario=rnd.choice(list(scenarios)))
+    if cfg["n_particles"] >= 500:
+        case["n_total"] = 2 * cfg["n_particles"]
     case.update(gen.gen_eval(rnd, blobs=bool(nb), modes=evals))
     if rnd.random() < 0.03 and not nb and "vector" in evals:
         # batches larger than any internal block size a vectorised path might use (not a multiple of a power of two)
